@@ -70,7 +70,12 @@ var verifMapRand uint64
 var verifCheap uint64
 var verifStream uint64
 
+// verifNoPreempt (VERIF_NOPREEMPT set) switches off sysmon's time-slice preemption of running
+// goroutines: which goroutine runs next then no longer depends on how long the OS let this thread run.
+var verifNoPreempt bool
+
 func init() {
+	verifNoPreempt = gogetenv("VERIF_NOPREEMPT") != ""
 	s := gogetenv("VERIF_MAPRAND")
 	if s == "" {
 		return
@@ -154,6 +159,14 @@ def gen_runtime_select():
     return src.replace(a, "verifSelectRandn(uint32(norder + 1))")
 
 
+def gen_runtime_proc():
+    src = open(os.path.join(GOROOT, "src/runtime/proc.go")).read()
+    a = "} else if pd.schedwhen+forcePreemptNS <= now {"
+    if src.count(a) != 1:
+        raise SystemExit("runtime/proc.go: anchor not found")
+    return src.replace(a, "} else if pd.schedwhen+forcePreemptNS <= now && !verifNoPreempt {")
+
+
 def write_if_changed(path, content):
     os.makedirs(os.path.dirname(path), exist_ok=True)
     try:
@@ -200,6 +213,16 @@ def mutation_files():
     return _MUT
 
 
+def variant():
+    """Suffix that keeps the build products of a VERIF_MUTATION run apart from those of a normal run
+    (both may be running at the same time)."""
+    diff = os.environ.get("VERIF_MUTATION")
+    if not diff:
+        return ""
+    import hashlib
+    return "-mut" + hashlib.sha256(open(diff, "rb").read()).hexdigest()[:12]
+
+
 def rewrite_imports(relpath, mapping):
     src = open(mutation_files().get(relpath) or os.path.join(REPO, relpath)).read()
     m = re.search(r"^import \((.*?)^\)", src, re.S | re.M)
@@ -223,6 +246,9 @@ def gen_overlay(group):
     rs = os.path.join(BUILD, "gen", "runtime_select.go.txt")
     write_if_changed(rs, gen_runtime_select())
     repl[os.path.join(GOROOT, "src/runtime/select.go")] = rs
+    rp = os.path.join(BUILD, "gen", "runtime_proc.go.txt")
+    write_if_changed(rp, gen_runtime_proc())
+    repl[os.path.join(GOROOT, "src/runtime/proc.go")] = rp
 
     def map_dir(srcdir, dstdir, prefix=""):
         if not os.path.isdir(srcdir):
@@ -249,10 +275,10 @@ def gen_overlay(group):
     for relpath, mpath in mutation_files().items():
         repl[os.path.join(REPO, relpath)] = mpath
     for relpath, mapping in REWRITES.get(group, {}).items():
-        out = os.path.join(BUILD, "gen", group, relpath + ".txt")
+        out = os.path.join(BUILD, "gen", group + variant(), relpath + ".txt")
         write_if_changed(out, rewrite_imports(relpath, mapping))
         repl[os.path.join(REPO, relpath)] = out
-    path = os.path.join(BUILD, "overlay-%s.json" % group)
+    path = os.path.join(BUILD, "overlay-%s%s.json" % (group, variant()))
     write_if_changed(path, json.dumps({"Replace": repl}, indent=1, sort_keys=True))
     return path
 
@@ -260,7 +286,7 @@ def gen_overlay(group):
 def build(group, race=False, quiet=False):
     """Builds the harness test binary of a group from /repo's working tree. Returns binary path."""
     ov = gen_overlay(group)
-    out = os.path.join(BUILD, "bin", group + (".race" if race else "") + ".test")
+    out = os.path.join(BUILD, "bin", group + variant() + (".race" if race else "") + ".test")
     os.makedirs(os.path.dirname(out), exist_ok=True)
     cmd = [GO, "test", "-c", "-tags", "verif", "-vet=off", "-overlay", ov, "-o", out]
     env = goenv()
